@@ -27,6 +27,7 @@ func init() {
 			{ID: "C19.R2", Doc: "plain accesses of Signal.err/ch and Chan.ch/closed: writes under the mutex, reads under it / after it / behind the matching flag bit", Run: c19r2},
 			{ID: "C19.R3", Doc: "first set wins: setSlow body guarded by the error bit tested under the mutex; ok only from that branch; status written atomically only", Run: c19r3},
 			{ID: "C19.R4", Doc: "close-once for every close(ch) in drpcsignal", Run: func(c *an.Ctx) { closeOnce(c, "drpcsignal") }},
+			{ID: "C19.R5", Doc: "lazy channel: the initialiser runs only if done is still clear when re-tested under Chan.mu (first user wins)", Run: c19r5},
 		},
 	})
 }
@@ -429,4 +430,61 @@ func c19r3(c *an.Ctx) {
 		nPlain += len(fieldStores(f, status))
 	}
 	c.Check(nPlain == 0, "drpcsignal | Signal.status is written only with atomic stores", "-", "", fmt.Sprintf("%d plain stores to Signal.status", nPlain))
+}
+
+func c19r5(c *an.Ctx) {
+	a := A(c)
+	pl := locksOf(c, "drpcsignal")
+	done := a.field("drpcsignal", "Chan", "done")
+	cmu := a.field("drpcsignal", "Chan", "mu")
+	ds := c.Fn("drpcsignal", "(*Chan).doSlow")
+	n := 0
+	an.Instrs(ds, func(in ssa.Instruction) {
+		call, ok := in.(*ssa.Call)
+		if !ok {
+			return
+		}
+		p, isP := call.Common().Value.(*ssa.Parameter)
+		if !isP || p != ds.Params[1] {
+			return
+		}
+		n++
+		okGuard := false
+		for _, g := range an.GuardsOf(in.Block()) {
+			b, isB := g.Cond.(*ssa.BinOp)
+			if !isB {
+				continue
+			}
+			k, isC := an.ConstInt(b.Y)
+			if !isC || k != 0 {
+				continue
+			}
+			clear := (b.Op == token.EQL && g.True) || (b.Op == token.NEQ && !g.True)
+			if !clear {
+				continue
+			}
+			var ld ssa.Instruction
+			if u, isU := b.X.(*ssa.UnOp); isU && isLoadOfField(u, done) {
+				ld = u
+			}
+			if cl, isCl := b.X.(*ssa.Call); isCl && isAtomicLoadOf(cl, done) {
+				ld = cl
+			}
+			if ld != nil && pl.MustHoldClass(ld, ds.Params[0], cmu) {
+				okGuard = true
+			}
+		}
+		c.Check(okGuard, "(*Chan).doSlow | initialiser runs only if done == 0 under Chan.mu", c.At(in), "",
+			"the double-checked initialisation lost its second check: two concurrent first users (Get racing Close, or two Gets) both run their initialiser, so one observer holds a channel that is later replaced and never closes")
+	})
+	c.Floor("initialiser calls in doSlow", 1, n)
+	// the fast path only skips doSlow when done was observed set atomically
+	do := c.Fn("drpcsignal", "(*Chan).do")
+	okFast := false
+	an.Instrs(do, func(in ssa.Instruction) {
+		if call, ok := in.(*ssa.Call); ok && isAtomicLoadOf(call, done) {
+			okFast = true
+		}
+	})
+	c.Check(okFast, "(*Chan).do | fast path reads done atomically", c.P.Pos(do.Pos()), "", "the fast path does not read the done flag with an atomic load")
 }
